@@ -1314,12 +1314,224 @@ def run_c11(ctx) -> Corr:
 # ---- C12 --------------------------------------------------------------------------------------
 
 
+def _c12_oracle(corr: Corr, h: Hist, io) -> None:
+    """C12 restated over one observed trace: every send ends written / held for a sleeping destination / in a library
+    error; whatever is held is handed to the transport (once) at its node's next wake - whatever happened in between."""
+    pending = {}
+    for i, op in enumerate(h.ops):
+        before, o = io[i], io[i + 1]
+        case = {"history": Hist(h.version, h.metric, h.preload, h.ops[: i + 1]).to_json(), "outcome": o["out"],
+                "writes": [list(w) for w in o["writes"]]}
+        if op[0] == "session":
+            continue
+        if op[0] == "send":
+            f = op[1]
+            if f is None:
+                if o["out"] != "err invalidMessage" or o["writes"]:
+                    corr.violate("an object that is not a message was not rejected as an invalid message", case)
+                    break
+                continue
+            if o["out"].startswith("foreign"):
+                corr.violate("send raised an exception that is not a library error", case)
+                break
+            if o["out"].startswith("err"):
+                continue
+            line = line_of(f)
+            written = [w for w in o["writes"] if w == (line, True)]
+            key = (f[0], f[1], f[4])
+            is_parked = any(tuple(k) == key and p == f[5] for k, p in o["sbuf"])
+            sleeping = f[0] in before["nodes"] and before["nodes"][f[0]]["sleeping"]
+            if len(written) == 1 and not is_parked:
+                continue
+            if not written and is_parked and sleeping:
+                pending[key] = line
+                corr.count("oracle: send held for a sleeping destination")
+                continue
+            corr.violate("send returned normally but the message was neither written nor held for a sleeping destination", case)
+            break
+        else:
+            f = fields_of(op[1])
+            if f is not None and is_wake(before["proto"], f):
+                got = [w[0] for w in o["writes"] if w[1]]
+                failed = o["out"] in ("err transportFailed", "foreign CancelledError") and any(not w[1] for w in o["writes"])
+                flagged = f[0] in before["nodes"] and before["nodes"][f[0]]["sleeping"]
+                for key in [k for k in pending if k[0] == f[0]]:
+                    if pending[key] in got:
+                        if got.count(pending[key]) > 1:
+                            corr.violate("a held message was handed to the transport more than once at its node's wake", case)
+                        corr.count("oracle: held message released at its node's wake" if flagged else
+                                   "oracle: held message released at the wake of a node that presented itself again meanwhile")
+                        del pending[key]
+                    elif failed and any(tuple(k) == key for k, _ in o["sbuf"]):
+                        pass   # the wake's writes failed: the message is still held, a later wake must release it
+                    else:
+                        corr.violate("a held message was neither handed to the transport at its node's wake nor kept for a later one",
+                                     {**case, "held": pending[key], "held_since_step": _held_since(h, pending[key])})
+                        del pending[key]
+    if h.version in V20 and pending:
+        corr.violate("a held message was never released although its node woke", {"history": h.to_json(), "pending": [list(k) for k in pending]})
+
+
+def _held_since(h: Hist, line: str):
+    """1-based step of the (last) send of `line` in the history (for the replay's reader)."""
+    steps = [i + 1 for i, op in enumerate(h.ops) if op[0] == "send" and op[1] is not None and line_of(op[1]) == line]
+    return steps[-1] if steps else None
+
+
+def _c12_between_kinds(v: str, n: int, m: int, pay):
+    """Kinds of traffic that can come between the moment a command is held for node `n` and `n`'s next wake, by name.
+    `m` is another registered node; `pay()` yields a payload no other send of the history uses.  None of them is a wake
+    of `n` under protocol `v`, so none of them may make the held command disappear."""
+    t = gw.DEFAULT_TIME
+    other_wake = 32 if v == "2.2" else 22
+    not_wake = [22, 33] if v == "2.2" else [32, 33]       # 2.2: a heartbeat response is no wake; 2.0/2.1: 32/33 are not in the table
+    kinds = {
+        # the destination boots again (battery change, reset): its presentation replaces the registry entry
+        "re-presentation": [("recv", f"{n};255;0;0;17;{v}", (), t)],
+        "re-presentation with its children": [("recv", f"{n};255;0;0;17;{v}", (), t), ("recv", f"{n};0;0;0;6;d", (), t),
+                                              ("recv", f"{n};1;0;0;3;e", (), t)],
+        "re-presentation as another node type": [("recv", f"{n};255;0;0;18;2.1.1", (), t)],
+        "re-presentation, sketch, battery": [("recv", f"{n};255;0;0;17;{v}", (), t), ("recv", f"{n};255;3;0;11;Sk", (), t),
+                                             ("recv", f"{n};255;3;0;12;1.0", (), t), ("recv", f"{n};255;3;0;0;57", (), t)],
+        "re-presentation twice": [("recv", f"{n};255;0;0;17;{v}", (), t), ("recv", f"{n};255;0;0;17;{v}", (), t)],
+        # other traffic from the destination
+        "child presentation": [("recv", f"{n};1;0;0;3;again", (), t)],
+        "new child presentation": [("recv", f"{n};2;0;0;6;new", (), t)],
+        "sketch name and version": [("recv", f"{n};255;3;0;11;Sk", (), t), ("recv", f"{n};255;3;0;12;1.0", (), t)],
+        "battery report": [("recv", f"{n};255;3;0;0;57", (), t)],
+        "value report": [("recv", f"{n};1;1;0;2;8", (), t)],
+        "value report, held key": [("recv", f"{n};1;1;0;0;8", (), t)],
+        "value request": [("recv", f"{n};1;2;0;2;", (), t)],
+        "report for a child not presented": [("recv", f"{n};7;1;0;2;8", (), t)],
+        "internal messages that are no wake": [("recv", f"{n};255;3;0;{x};500", (), t) for x in not_wake] + [("recv", f"{n};255;3;0;21;0", (), t)],
+        "config and time requests": [("recv", f"{n};255;3;0;6;", (), t), ("recv", f"{n};255;3;0;1;", (), t)],
+        "stream message": [("recv", f"{n};255;4;0;0;0102", (), t)],
+        # traffic that is not from the destination
+        "another node presents": [("recv", f"{m};255;0;0;17;{v}", (), t), ("recv", f"{m};1;0;0;6;d", (), t)],
+        "another node wakes": [("recv", f"{m};255;3;0;{other_wake};500", (), t)],
+        "an unknown node wakes": [("recv", f"9;255;3;0;{other_wake};500", (), t)],
+        "gateway messages": [("recv", "0;255;3;0;9;log;text", (), t), ("recv", "0;255;3;0;14;ready", (), t), ("recv", f"0;255;3;0;2;{v}", (), t)],
+        "id request": [("recv", "255;255;3;0;3;", (), t)],
+        "rejected lines": [("recv", "bad line", (), t), ("recv", f"{n};1;1;0;abc;x", (), t), ("recv", "", (), t)],
+        "reconnect": [gw.SESSION],
+        # the application goes on sending
+        "unbuffered send, another key": [("send", (n, 1, 1, 0, 3, pay()), False, ())],
+        "send, another key": [("send", (n, 1, 1, 1, 3, pay()), True, ())],
+        "send, same key": [("send", (n, 1, 1, 0, 0, pay()), True, ())],
+        "send to another node": [("send", (m, 1, 1, 0, 0, pay()), True, ())],
+        "other commands to the destination": [("send", (n, 255, 3, 0, 13, ""), True, ()), ("send", (n, 1, 2, 0, 0, ""), True, ()),
+                                              ("send", (n, 255, 4, 0, 1, "fw"), True, ())],
+    }
+    return kinds
+
+
+def _c12_between_histories(ctx, corr: Corr):
+    """Histories in which something happens BETWEEN the moment a set command is held for a node and that node's next
+    wake: the node presents itself again (the registry entry is replaced: a fresh node, not flagged as sleeping, no
+    children), sends other messages, other nodes and the gateway talk, the application reconnects or goes on sending -
+    once, in combination, and before EVERY wake (a node that boots fresh each cycle).  The property asks the same of
+    all of them: what was held is handed to the transport at the destination's next wake."""
+    hists = []
+    t = gw.DEFAULT_TIME
+
+    def counter():
+        c = [100]
+
+        def pay():
+            c[0] += 1
+            return str(c[0])
+        return pay
+
+    def wake(v, n, faults=()):
+        return ("recv", f"{n};255;3;0;{32 if v == '2.2' else 22};500", faults, t)
+
+    def boot(v, n):
+        return [("recv", f"{n};255;0;0;17;{v}", (), t), ("recv", f"{n};0;0;0;6;d", (), t), ("recv", f"{n};1;0;0;3;e", (), t)]
+
+    # 1. the grid: every kind of traffic x four shapes x five versions (1.x: the sleeping flag comes from persistence)
+    for v in lib.VERSIONS:
+        names = list(_c12_between_kinds(v, 1, 2, counter()))
+        for name in names:
+            for shape in ("between", "after re-presentation", "before re-presentation", "every cycle"):
+                pay = counter()
+                kinds = _c12_between_kinds(v, 1, 2, pay)
+                rep = kinds["re-presentation"]
+                if v in V20:
+                    h = Hist(v, True)
+                    h.ops = boot(v, 1) + boot(v, 2) + [wake(v, 1), wake(v, 2)]
+                else:
+                    h = Hist(v, True, [("node", 1, 17, v, "", "", 0, 0, False, True), ("child", 1, 0, 0, 6, "d"), ("child", 1, 1, 1, 3, "e"),
+                                       ("node", 2, 17, v, "", "", 0, 0, False, True), ("child", 2, 1, 1, 3, "e")])
+                hold = [("send", (1, 1, 1, 0, 0, pay()), True, ()), ("send", (1, 0, 1, 1, 2, pay()), True, ())]
+                if shape == "between":
+                    h.ops += hold[:1] + kinds[name] + [wake(v, 1)]
+                elif shape == "after re-presentation":
+                    h.ops += hold + rep + kinds[name] + [wake(v, 1)]
+                elif shape == "before re-presentation":
+                    h.ops += hold + kinds[name] + rep + [wake(v, 1)]
+                else:
+                    for _ in range(3):
+                        # the node boots fresh before every wake: each cycle's command is held (the node went to sleep
+                        # after its last wake), then the node presents itself again, then it wakes
+                        h.ops += [("send", (1, 1, 1, 0, 0, pay()), True, ())] + rep + _c12_between_kinds(v, 1, 2, pay)[name] + [wake(v, 1)]
+                h.ops += [wake(v, 1), wake(v, 2)]
+                hists.append(h)
+                corr.count("between hold and wake: " + name)
+                corr.count("shape: " + shape)
+    # 2. random cycles over two registered nodes (and sends to one that never presented)
+    rng = lib.rng_for(ctx.seed, "c12between")
+    n_rand = 120 if ctx.tier == "quick" else 2500
+    for i in range(n_rand):
+        v = (lib.VERSIONS[2:] + lib.VERSIONS)[i % 8]          # the 2.x versions twice as often: only they have wakes
+        pay = counter()
+        if v in V20 and rng.random() < 0.7:
+            h = Hist(v, rng.random() < 0.7)
+            h.ops = boot(v, 1) + boot(v, 2) + [wake(v, 1), wake(v, 2)]
+        else:
+            h = Hist(v, True, [("node", 1, 17, v, "", "", 0, 0, False, True), ("child", 1, 0, 0, 6, "d"), ("child", 1, 1, 1, 3, "e"),
+                               ("node", 2, 17, v, "", "", 0, 0, rng.random() < 0.2, rng.random() < 0.7), ("child", 2, 1, 1, 3, "e")])
+        fresh = {n: rng.random() < 0.4 for n in (1, 2)}         # boots fresh (presents itself) before every wake
+        for _ in range(rng.randint(1, 6 if ctx.tier == "quick" else 12)):
+            n = rng.choice((1, 2))
+            m = 3 - n
+            for _ in range(rng.randint(1, 3)):
+                h.ops.append(("send", (rng.choice((n, n, n, m, 3)), rng.choice((0, 1)), 1, rng.choice((0, 1)), rng.choice((0, 2)), pay()),
+                              rng.random() < 0.9, ()))
+            between = []
+            for _ in range(rng.choice((0, 1, 1, 2, 3))):
+                kinds = _c12_between_kinds(v, n, m, pay)      # built anew for every draw: no two sends carry the same payload
+                between += kinds[rng.choice(list(kinds))]
+            if fresh[n] or rng.random() < 0.3:
+                kinds = _c12_between_kinds(v, n, m, pay)
+                rep = kinds[rng.choice([k for k in kinds if k.startswith("re-presentation")])]
+                k = rng.randint(0, len(between))
+                between = between[:k] + rep + between[k:]
+                corr.count("random cycles: destination re-presents between hold and wake")
+            else:
+                corr.count("random cycles: no re-presentation between hold and wake")
+            h.ops += between
+            if rng.random() < 0.1:
+                # a wake during which a write fails (or the listening task is cancelled): what was not written stays held
+                h.ops.append(wake(v, n, gw.gen_faults(rng, 0.3)))
+                corr.count("random cycles: wake with failing writes")
+            h.ops.append(wake(v, n))
+        h.ops += [wake(v, 1), wake(v, 2)]
+        hists.append(h)
+    return hists
+
+
 def run_c12(ctx) -> Corr:
     corr = Corr("C12", "send of every command 0-4 x every type number of the active protocol's table for that command (and a few "
                 "outside it) x buffering flag on/off x destination unknown/awake/sleeping x 5 versions x write fault or not, "
-                "plus non-message objects; then a wake of every node; compared on the writes view with the Lean model; oracle = "
-                "the trichotomy written / parked-for-a-sleeping-node-and-released-at-its-wake / library error. non-trivial = "
-                "distinct (version, destination state, message, flag, fault)")
+                "plus non-message objects; then a wake of every node; plus histories with traffic BETWEEN a hold and the "
+                "destination's next wake (the destination presents itself again - once, twice, with children / sketch / battery, "
+                "before every wake -, sends other messages, other nodes and the gateway talk, rejected lines, a reconnect, further "
+                "sends; 28 kinds x 4 shapes x 5 versions and random cycles over two nodes with failing wakes); compared on the "
+                "writes view with the Lean model; oracle = the trichotomy written / parked-for-a-sleeping-node-and-released-"
+                "(once)-at-its-next-wake / library error. non-trivial = distinct (version, destination state, message, flag, fault)")
+    corr.notes.append("the histories with traffic between hold and wake (_c12_between_histories) consist of recv / send / session "
+                      "operations only, all of which the gateway model's driver has: they are compared with the Lean model on the "
+                      "writes view AND judged by the oracle (_c12_oracle), like the other C12 histories")
     hists = [h for _, h in corpus_histories("C12")]
     for v in lib.VERSIONS:
         tv = proto_tables(v)
@@ -1363,54 +1575,13 @@ def run_c12(ctx) -> Corr:
         h = Hist(v, True)
         h.ops = [("send", None, True, ()), ("send", None, False, ())]
         hists.append(h)
+    n_base = len(hists)
+    hists += _c12_between_histories(ctx, corr)
+    corr.count("histories: one send per destination state, then a wake of every node", n_base)
+    corr.count("histories: traffic between hold and wake", len(hists) - n_base)
     impl = run_both(hists, corr, ctx, "writes", "writes view")
     for h, io in zip(hists, impl):
-        pending = {}
-        for i, op in enumerate(h.ops):
-            before, o = io[i], io[i + 1]
-            case = {"history": Hist(h.version, h.metric, h.preload, h.ops[: i + 1]).to_json(), "outcome": o["out"],
-                    "writes": [list(w) for w in o["writes"]]}
-            if op[0] == "session":
-                continue
-            if op[0] == "send":
-                f = op[1]
-                if f is None:
-                    if o["out"] != "err invalidMessage" or o["writes"]:
-                        corr.violate("an object that is not a message was not rejected as an invalid message", case)
-                        break
-                    continue
-                if o["out"].startswith("foreign"):
-                    corr.violate("send raised an exception that is not a library error", case)
-                    break
-                if o["out"].startswith("err"):
-                    continue
-                line = line_of(f)
-                written = [w for w in o["writes"] if w == (line, True)]
-                key = (f[0], f[1], f[4])
-                is_parked = any(tuple(k) == key and p == f[5] for k, p in o["sbuf"])
-                sleeping = f[0] in before["nodes"] and before["nodes"][f[0]]["sleeping"]
-                if len(written) == 1 and not is_parked:
-                    continue
-                if not written and is_parked and sleeping:
-                    pending[key] = line
-                    continue
-                corr.violate("send returned normally but the message was neither written nor held for a sleeping destination", case)
-                break
-            else:
-                f = fields_of(op[1])
-                if f is not None and is_wake(before["proto"], f):
-                    got = [w[0] for w in o["writes"] if w[1]]
-                    failed = o["out"] in ("err transportFailed", "foreign CancelledError") and any(not w[1] for w in o["writes"])
-                    for key in [k for k in pending if k[0] == f[0]]:
-                        if pending[key] in got:
-                            del pending[key]
-                        elif failed and any(tuple(k) == key for k, _ in o["sbuf"]):
-                            pass   # the wake's writes failed: the message is still held, a later wake must release it
-                        else:
-                            corr.violate("a held message was neither handed to the transport at its node's wake nor kept for a later one", case)
-                            del pending[key]
-        if h.version in V20 and pending:
-            corr.violate("a held message was never released although its node woke", {"history": h.to_json(), "pending": [list(k) for k in pending]})
+        _c12_oracle(corr, h, io)
     account(corr, hists, impl, lambda h, op, before, o: op[0] == "send")
     return corr
 
